@@ -1,7 +1,6 @@
 package fakekafka
 
 import (
-	"fmt"
 	"sort"
 	"time"
 
@@ -56,13 +55,14 @@ type Group struct {
 	Commits          []Commit // acknowledged commits, in order
 	Leaves           []string
 	RebalanceTimeout time.Duration
+	opts             *GroupOptions // the cluster's GroupOpts (groupopts.go)
 }
 
 func (c *Cluster) group(id string) *Group {
 	g := c.Groups[id]
 	if g == nil {
 		g = &Group{ID: id, Coordinator: c.BrokerIDs()[0], State: "Empty", Members: map[string]*Member{},
-			Committed: map[string]map[int]int64{}}
+			Committed: map[string]map[int]int64{}, opts: &c.GroupOpts}
 		c.Groups[id] = g
 	}
 	return g
@@ -131,15 +131,16 @@ func (g *Group) maybeCompleteJoin() {
 			return
 		}
 	}
+	if !g.joinRoundMayComplete() {
+		return
+	}
 	g.completeJoin()
 }
 
 func (g *Group) completeJoin() {
 	g.Generation++
 	ids := g.memberIDs()
-	if _, ok := g.Members[g.Leader]; !ok {
-		g.Leader = ids[0]
-	}
+	g.electLeader(ids)
 	// first protocol of the leader that every member supports
 	g.Protocol = ""
 	for _, p := range g.Members[g.Leader].Protocols {
@@ -265,7 +266,7 @@ func (b *Broker) joinGroup(req *Request) Reply {
 		if req.ClientID != nil {
 			cid = *req.ClientID
 		}
-		memberID = fmt.Sprintf("%s-m%d", cid, g.nextMember)
+		memberID = c.memberIDFor(cid, g.nextMember)
 		g.Members[memberID] = &Member{ID: memberID, ClientID: cid}
 	}
 	m := g.Members[memberID]
@@ -315,7 +316,7 @@ func (b *Broker) joinGroup(req *Request) Reply {
 		w.Str(g.Leader)
 		w.Str(memberID)
 		if memberID == g.Leader {
-			ids := g.memberIDs()
+			ids := g.listing(g.memberIDs())
 			w.ArrayLen(len(ids))
 			for _, id := range ids {
 				w.Str(id)
